@@ -5,6 +5,7 @@ from fractions import Fraction
 import numpy as np
 
 import lib
+import translate_est
 from lib import qlit, zmat, qlist
 
 IMPORTS = ("From Coq Require Import List ZArith QArith.\nImport ListNotations.\n"
@@ -48,6 +49,7 @@ def run(chk):
     from causationentropy.core.stats import Compute_TPR_FPR, auc
     rng = np.random.default_rng(chk.seed)
     chk.theorems()
+    lib.translator_lemma(chk, "stats_facts", translate_est.stats_facts, translate_est.coq_stats_facts, "")
     chk.trusted += ["Coq 8.16.1 kernel + vm_compute", "harness/props/C17.py generators and float->Q conversion (float.as_integer_ratio)",
                     "NumPy elementwise ops / np.trapezoid are compared, not modelled"]
     chk.assumptions += ["matrices are square n x n numeric arrays (int64 or float64)",
